@@ -4,4 +4,555 @@
 import BumpverVerif.Model.V2Patterns
 namespace BV
 
+/-! ### the literal-sequence regex -/
+
+/-- twin of `Re.lits` (Props/C07.lean) -/
+def litsRe : Str → Re
+  | [] => .eps
+  | [c] => .chr c
+  | c :: cs => .seq (.chr c) (litsRe cs)
+
+theorem chr_m (c : Char) (st : MSt) :
+    (Re.chr c).m st =
+      if [c].isPrefixOf st.rest then [{ rest := st.rest.drop 1, start := false, caps := st.caps }] else [] := by
+  cases st with
+  | mk rest start caps =>
+    cases rest with
+    | nil => simp [Re.m]
+    | cons x r =>
+      by_cases h : x = c
+      · subst h; simp [Re.m, MSt.step]
+      · have h' : ¬ c = x := fun e => h e.symm
+        simp [Re.m, h, h']
+
+theorem litsRe_cons_m (c : Char) (cs : Str) (st : MSt) :
+    (litsRe (c :: cs)).m st = ((Re.chr c).m st).flatMap (litsRe cs).m := by
+  cases cs with
+  | nil =>
+    simp only [litsRe]
+    have : (Re.eps).m = fun s => [s] := by funext s; simp [Re.m]
+    rw [this]; simp
+  | cons d ds => simp [litsRe, Re.m]
+
+theorem litsRe_m (t : Str) (st : MSt) :
+    (litsRe t).m st =
+      if t.isPrefixOf st.rest then
+        [{ rest := st.rest.drop t.length, start := st.start && t.isEmpty, caps := st.caps }]
+      else [] := by
+  induction t generalizing st with
+  | nil => cases st; simp [litsRe, Re.m]
+  | cons c cs ih =>
+    rw [litsRe_cons_m, chr_m]
+    cases st with
+    | mk rest start caps =>
+      cases rest with
+      | nil => simp
+      | cons x r =>
+        by_cases h : c = x
+        · subst h
+          simp [ih]
+        · simp [h]
+
+theorem isPrefixOf_length_le {t l : Str} (h : t.isPrefixOf l = true) : t.length ≤ l.length :=
+  (List.isPrefixOf_iff_prefix.mp h).length_le
+
+theorem searchGo_litsRe (t line : Str) (idx : Nat) :
+    searchGo (litsRe t) idx line =
+      (findIdx t line).map (fun i => { start := idx + i, stop := idx + i + t.length, caps := [] }) := by
+  induction line generalizing idx with
+  | nil =>
+    cases t with
+    | nil => simp [searchGo, litsRe_m, findIdx]
+    | cons c cs => simp [searchGo, litsRe_m, findIdx]
+  | cons x xs ih =>
+    by_cases h : t.isPrefixOf (x :: xs) = true
+    · have hl := isPrefixOf_length_le h
+      simp only [List.length_cons] at hl
+      simp only [searchGo, litsRe_m, h, if_true, List.head?_cons, findIdx, Option.map_some,
+        List.length_drop, List.length_cons, Nat.add_zero]
+      congr 2
+      omega
+    · simp only [searchGo, litsRe_m, h, findIdx, ih]
+      simp only [Bool.false_eq_true, if_false, List.head?_nil, Option.map_map]
+      congr 1
+      funext i
+      simp only [Function.comp]
+      congr 1 <;> omega
+
+theorem findIdx_some_prefix {t line : Str} {i : Nat} (h : findIdx t line = some i) :
+    t.isPrefixOf (line.drop i) = true := by
+  induction line generalizing i with
+  | nil =>
+    simp only [findIdx] at h
+    split at h
+    · cases t with
+      | nil => simp
+      | cons _ _ => simp at *
+    · cases h
+  | cons x xs ih =>
+    simp only [findIdx] at h
+    split at h
+    · cases h; simpa using ‹t.isPrefixOf (x :: xs) = true›
+    · cases hf : findIdx t xs with
+      | none => simp [hf] at h
+      | some j =>
+        simp [hf] at h
+        subst h
+        simpa using ih hf
+
+/-! ### `str.replace` of a single character, and the escape loop -/
+
+theorem replaceAllF_single (c : Char) (rep : Str) (s : Str) (fuel : Nat) (h : s.length < fuel) :
+    replaceAllF fuel [c] rep s = s.flatMap (fun x => if x = c then rep else [x]) := by
+  induction s generalizing fuel with
+  | nil => cases fuel <;> simp [replaceAllF]
+  | cons x xs ih =>
+    cases fuel with
+    | zero => simp at h
+    | succ f =>
+      simp only [List.length_cons] at h
+      have hf : xs.length < f := by omega
+      by_cases hx : x = c
+      · subst hx
+        simp [replaceAllF, ih f hf]
+      · have hx' : ¬ c = x := fun e => hx e.symm
+        simp [replaceAllF, ih f hf, hx, hx']
+
+theorem replaceAll_single (c : Char) (rep : Str) (s : Str) :
+    replaceAll [c] rep s = s.flatMap (fun x => if x = c then rep else [x]) :=
+  replaceAllF_single c rep s _ (Nat.lt_succ_self _)
+
+/-- the escape loop over a list of distinct characters, none of them the backslash, is the
+    pointwise escape -/
+theorem escFold_pointwise (cs : List Char) (hbs : '\\' ∉ cs) (hnd : cs.Nodup) (s : Str) :
+    cs.foldl (fun acc c => replaceAll [c] ['\\', c] acc) s =
+      s.flatMap (fun x => if cs.contains x then ['\\', x] else [x]) := by
+  induction cs generalizing s with
+  | nil => simp
+  | cons c cs ih =>
+    have hbs' : '\\' ∉ cs := fun h => hbs (List.mem_cons_of_mem _ h)
+    have hc : c ∉ cs := (List.nodup_cons.mp hnd).1
+    have hc0 : ¬ '\\' = c := fun e => hbs (e ▸ List.mem_cons_self)
+    rw [List.foldl_cons, ih hbs' (List.nodup_cons.mp hnd).2, replaceAll_single, List.flatMap_assoc]
+    congr 1
+    funext x
+    by_cases hx : x = c
+    · subst hx
+      simp [hbs', hc]
+    · simp [hx]
+
+/-- entries of `RE_PATTERN_ESCAPES` the model skips (the semantic characters) -/
+def tblSkip (ce : Str × Str) : Bool :=
+  ce.1.all (fun c => "[]\\".toList.contains c) && !ce.1.isEmpty
+
+/-- the characters escaped by a table -/
+def tblChars (table : List (Str × Str)) : List Char :=
+  (table.filter (fun ce => !tblSkip ce)).filterMap (fun ce => ce.1.head?)
+
+/-- every applied entry replaces one character `c` by `\c` -/
+def tblShape (table : List (Str × Str)) : Bool :=
+  table.all (fun ce =>
+    tblSkip ce || (match ce.1 with | [c] => ce.2 == ['\\', c] && c != '\\' | _ => false))
+
+theorem escapePattern_eq_fold (table : List (Str × Str)) (h : tblShape table = true) (s : Str) :
+    escapePattern table s =
+      (tblChars table).foldl (fun acc c => replaceAll [c] ['\\', c] acc) s := by
+  induction table generalizing s with
+  | nil => simp [escapePattern, tblChars]
+  | cons ce tbl ih =>
+    simp only [tblShape, List.all_cons, Bool.and_eq_true] at h
+    have ih' := ih h.2
+    simp only [escapePattern, List.foldl_cons] at ih' ⊢
+    by_cases hs : tblSkip ce = true
+    · have hs' := hs
+      simp only [tblSkip] at hs'
+      simp only [hs', if_true]
+      rw [ih']
+      simp [tblChars, hs]
+    · have h1 := h.1
+      simp only [hs, Bool.false_or] at h1
+      have hs' : (ce.1.all (fun c => "[]\\".toList.contains c) && !ce.1.isEmpty) = false := by
+        simpa [tblSkip] using hs
+      obtain ⟨a, b⟩ := ce
+      cases a with
+      | nil => simp at h1
+      | cons c r =>
+        cases r with
+        | cons _ _ => simp at h1
+        | nil =>
+          simp only [Bool.and_eq_true, beq_iff_eq] at h1
+          obtain ⟨hb, -⟩ := h1
+          subst hb
+          simp only [hs', Bool.false_eq_true, if_false]
+          rw [ih']
+          simp [tblChars, hs]
+
+/-! ### literal text through `_replace_pattern_parts` -/
+
+/-- the characters `RE_PATTERN_ESCAPES` escapes today (Props/C07 proves `escapedChars = escList`) -/
+def escList : List Char := ['-', '.', '+', '*', '?', '{', '}', '(', ')', '|']
+
+/-- characters literal text may denote -/
+def litChar (x : Char) : Bool := !isUpper x && x != '\\' && x != '^' && x != '$'
+
+/-- the escaped form of one denoted character -/
+def encChar (x : Char) : Str :=
+  if escList.contains x || x == '[' || x == ']' then ['\\', x] else [x]
+
+def enc (t : Str) : Str := t.flatMap encChar
+
+theorem enc_cons (x : Char) (t : Str) : enc (x :: t) = encChar x ++ enc t := by
+  simp [enc]
+
+theorem encChar_cases (x : Char) :
+    (encChar x = ['\\', x] ∧ (escList.contains x || x == '[' || x == ']') = true) ∨
+    (encChar x = [x] ∧ (escList.contains x || x == '[' || x == ']') = false) := by
+  unfold encChar
+  cases h : (escList.contains x || x == '[' || x == ']') <;> simp
+
+/-- no bare bracket `b`: every `b` is directly preceded by a backslash (`prevBs` = the character
+    before the string is a backslash) -/
+def noBare (b : Char) : Bool → Str → Bool
+  | _, [] => true
+  | prevBs, c :: r => (c != b || prevBs) && noBare b (c == '\\') r
+
+theorem subBracketGo_id (b : Char) (repl : Str) (atStart prevBs : Bool) (s : Str)
+    (h : noBare b prevBs s = true) (hs : (atStart && prevBs) = false) :
+    subBracketGo b repl atStart s = (s, 0) := by
+  induction s generalizing atStart prevBs with
+  | nil => simp [subBracketGo]
+  | cons c r ih =>
+    cases r with
+    | nil =>
+      simp only [noBare, Bool.and_true, Bool.or_eq_true, bne_iff_ne, ne_eq] at h
+      simp only [subBracketGo]
+      have : (atStart && c == b) = false := by
+        cases atStart <;> cases prevBs <;> simp_all
+      simp [this]
+    | cons c2 r2 =>
+      have h' := h
+      simp only [noBare, Bool.and_eq_true, Bool.or_eq_true, bne_iff_ne, ne_eq] at h'
+      obtain ⟨h1, h2, h3⟩ := h'
+      have hrec : noBare b (c == '\\') (c2 :: r2) = true := by
+        simp only [noBare, Bool.and_eq_true, Bool.or_eq_true, bne_iff_ne, ne_eq]
+        exact ⟨h2, h3⟩
+      have ihr := ih false (c == '\\') hrec (by simp)
+      have e1 : (c != '\\' && c2 == b) = false := by
+        rcases h2 with h2 | h2
+        · have : (c2 == b) = false := by simpa using h2
+          simp [this]
+        · simp at h2; simp [h2]
+      have e2 : (atStart && c == b) = false := by
+        cases atStart <;> cases prevBs <;> simp_all
+      simp only [subBracketGo, e1, e2, Bool.false_eq_true, if_false, ihr]
+
+theorem bracketsToGroups_id (fuel : Nat) (s : Str)
+    (h1 : noBare '[' false s = true) (h2 : noBare ']' false s = true) :
+    bracketsToGroups fuel s = s := by
+  cases fuel with
+  | zero => rfl
+  | succ f =>
+    simp [bracketsToGroups, subBracket, subBracketGo_id _ _ true false s h1 (by simp),
+      subBracketGo_id _ _ true false s h2 (by simp)]
+
+theorem findIdx_some_subset {name s : Str} {i : Nat} (h : findIdx name s = some i) :
+    ∀ c ∈ name, c ∈ s := by
+  intro c hc
+  have hp := List.isPrefixOf_iff_prefix.mp (findIdx_some_prefix h)
+  exact List.mem_of_mem_drop (hp.subset hc)
+
+theorem findIdx_none_of_upper {name s : Str} (hn : name.any isUpper = true)
+    (hs : s.any isUpper = false) : findIdx name s = none := by
+  cases h : findIdx name s with
+  | none => rfl
+  | some i =>
+    exfalso
+    obtain ⟨c, hc, hu⟩ := List.any_eq_true.mp hn
+    have : s.any isUpper = true := List.any_eq_true.mpr ⟨c, findIdx_some_subset h c hc, hu⟩
+    simp [this] at hs
+
+theorem iterPartPatterns_nil (pp pf : List (Str × Str)) (s : Str)
+    (h : ∀ e ∈ pp, findIdx e.1 s = none) : iterPartPatterns pp pf s = [] := by
+  unfold iterPartPatterns
+  suffices H : ∀ (acc : List PosPart × List Str), ∀ l : List (Str × Str),
+      (∀ e ∈ l, findIdx e.1 s = none) →
+      l.foldl (fun (acc : List PosPart × List Str) (pp : Str × Str) =>
+        (findAllFrom pp.1 (s.length + 1) 0 s).foldl (fun (acc : List PosPart × List Str) start =>
+          let used := acc.2
+          let field := (lookup pp.1 pf).getD []
+          let gname := if memStr field used then field ++ ['_'] ++ natToStr used.length else field
+          let text := "(?P<".toList ++ gname ++ ">".toList ++ pp.2 ++ ")".toList
+          let used' := if memStr field used then used else used ++ [field]
+          (acc.1 ++ [{ start := start, stop := start + pp.1.length, name := pp.1, text := text }], used')) acc)
+        acc = acc by
+    exact congrArg Prod.fst (H ([], []) pp h)
+  intro acc l hl
+  induction l generalizing acc with
+  | nil => rfl
+  | cons e l ih =>
+    have he : findIdx e.1 s = none := hl e List.mem_cons_self
+    rw [List.foldl_cons]
+    have : findAllFrom e.1 (s.length + 1) 0 s = [] := by simp [findAllFrom, he]
+    rw [this]
+    exact ih acc (fun e' he' => hl e' (List.mem_cons_of_mem _ he'))
+
+theorem replacePatternParts_id (pp pf : List (Str × Str)) (s : Str)
+    (h1 : noBare '[' false s = true) (h2 : noBare ']' false s = true)
+    (hpp : pp.all (fun e => e.1.any isUpper) = true) (hs : s.any isUpper = false) :
+    replacePatternParts pp pf s = s := by
+  have hn : ∀ e ∈ pp, findIdx e.1 s = none := fun e he =>
+    findIdx_none_of_upper (List.all_eq_true.mp hpp e he) hs
+  simp [replacePatternParts, bracketsToGroups_id _ s h1 h2, iterPartPatterns_nil pp pf s hn,
+    sortParts, substParts]
+
+/-! ### facts about the escaped form -/
+
+theorem litChar_ne_bs {x : Char} (h : litChar x = true) : x ≠ '\\' := by
+  simp [litChar] at h; exact h.1.1.2
+
+theorem noBare_enc (b : Char) (hb : b = '[' ∨ b = ']') (t tail : Str)
+    (ht : t.all litChar = true) (htail : noBare b false tail = true) :
+    noBare b false (enc t ++ tail) = true := by
+  induction t with
+  | nil => simpa [enc] using htail
+  | cons x xs ih =>
+    simp only [List.all_cons, Bool.and_eq_true] at ht
+    have ih' := ih ht.2
+    have hx : (x == '\\') = false := by simpa using litChar_ne_bs ht.1
+    have hbb : ('\\' != b) = true := by rcases hb with rfl | rfl <;> decide
+    rw [enc_cons]
+    rcases encChar_cases x with ⟨e, -⟩ | ⟨e, hne⟩
+    · rw [e]
+      simp only [List.cons_append, List.nil_append, noBare, hx, ih', hbb]
+      simp
+    · rw [e]
+      simp only [Bool.or_eq_false_iff] at hne
+      have : (x != b) = true := by
+        rcases hb with rfl | rfl
+        · simpa using hne.1.2
+        · simpa using hne.2
+      simp only [List.cons_append, List.nil_append, noBare, hx, ih', this]
+      simp
+
+theorem enc_noUpper (t tail : Str) (ht : t.all litChar = true) (htail : tail.any isUpper = false) :
+    (enc t ++ tail).any isUpper = false := by
+  induction t with
+  | nil => simpa [enc] using htail
+  | cons x xs ih =>
+    simp only [List.all_cons, Bool.and_eq_true] at ht
+    have ih' := ih ht.2
+    have hx : isUpper x = false := by
+      have := ht.1; simp [litChar] at this; simpa using this.1.1.1
+    have hb : isUpper '\\' = false := by decide
+    rw [enc_cons]
+    rcases encChar_cases x with ⟨e, -⟩ | ⟨e, -⟩ <;> rw [e] <;>
+      simp only [List.cons_append, List.nil_append, List.any_cons, hx, hb, ih', Bool.or_self]
+
+theorem length_le_enc (t : Str) : t.length ≤ (enc t).length := by
+  induction t with
+  | nil => simp [enc]
+  | cons x xs ih =>
+    rw [enc_cons]
+    rcases encChar_cases x with ⟨e, -⟩ | ⟨e, -⟩ <;> rw [e] <;> simp <;> omega
+
+/-! ### parsing the escaped form -/
+
+/-- the string does not start with a quantifier character -/
+def quantFree : Str → Bool
+  | [] => true
+  | c :: _ => c != '*' && c != '+' && c != '?' && c != '{'
+
+theorem parseQuant_none (a : Re) (r : Str) (h : quantFree r = true) : parseQuant a r = some (a, r) := by
+  cases r with
+  | nil => simp [parseQuant]
+  | cons c r =>
+    simp only [quantFree, Bool.and_eq_true, bne_iff_ne, ne_eq] at h
+    unfold parseQuant
+    split <;> simp_all
+
+/-- what `parseSeq` builds from an atom `q` and the parse `b` of the rest -/
+def seqc (q : Re) : Re → Re
+  | .eps => q
+  | b => .seq q b
+
+theorem parseSeq_step (f : Nat) (s r : Str) (a : Re)
+    (hs : match s with | [] => False | c :: _ => c ≠ '|' ∧ c ≠ ')')
+    (ha : parseAtom f s = some (a, r)) (hq : quantFree r = true) :
+    parseSeq (f + 1) s = (parseSeq f r).map (fun br => (seqc a br.1, br.2)) := by
+  cases s with
+  | nil => exact hs.elim
+  | cons c s' =>
+    simp only at hs
+    cases hp : parseSeq f r with
+    | none =>
+      unfold parseSeq
+      split
+      · simp_all
+      · simp_all
+      · simp_all
+      · simp [ha, parseQuant_none a r hq, hp]
+    | some br =>
+      obtain ⟨b, r''⟩ := br
+      unfold parseSeq
+      split
+      · simp_all
+      · simp_all
+      · simp_all
+      · simp only [ha, parseQuant_none a r hq, hp]
+        cases b <;> simp [seqc]
+theorem parseAtom_bs (f : Nat) (x : Char) (r : Str) :
+    parseAtom (f + 1) ('\\' :: x :: r) = (escapeAtom x).map (fun a => (a, r)) := by
+  rfl
+
+theorem parseAtom_plain (f : Nat) (x : Char) (r : Str)
+    (h : x ≠ '(' ∧ x ≠ '[' ∧ x ≠ '\\' ∧ x ≠ '.' ∧ x ≠ '^' ∧ x ≠ '$' ∧ x ≠ '*' ∧ x ≠ '+' ∧ x ≠ '?') :
+    parseAtom (f + 1) (x :: r) = some (.chr x, r) := by
+  unfold parseAtom
+  split <;> simp_all
+
+theorem escapeAtom_escaped (x : Char) (h : (escList.contains x || x == '[' || x == ']') = true) :
+    escapeAtom x = some (.chr x) := by
+  simp only [escList, List.contains_cons, List.contains_nil, Bool.or_false, Bool.or_eq_true,
+    beq_iff_eq] at h
+  rcases h with ((h | h | h | h | h | h | h | h | h | h) | h) | h <;> subst h <;> rfl
+
+theorem parseAtom_encChar (f : Nat) (x : Char) (r : Str) (hx : litChar x = true) :
+    parseAtom (f + 1) (encChar x ++ r) = some (.chr x, r) := by
+  rcases encChar_cases x with ⟨e, h⟩ | ⟨e, h⟩
+  · rw [e]
+    simp only [List.cons_append, List.nil_append]
+    rw [parseAtom_bs, escapeAtom_escaped x h]; rfl
+  · rw [e]
+    simp only [List.cons_append, List.nil_append]
+    apply parseAtom_plain
+    simp only [escList, List.contains_cons, List.contains_nil, Bool.or_false, Bool.or_eq_false_iff,
+      beq_eq_false_iff_ne, ne_eq] at h
+    simp only [litChar, Bool.and_eq_true, bne_iff_ne, ne_eq] at hx
+    simp_all
+
+/-- the first character of an escaped character is neither a quantifier nor `|` / `)` -/
+theorem encChar_head (x : Char) (r : Str) (_hx : litChar x = true) :
+    ∃ c r', encChar x ++ r = c :: r' ∧ c ≠ '|' ∧ c ≠ ')' ∧ c ≠ '*' ∧ c ≠ '+' ∧ c ≠ '?' ∧ c ≠ '{' := by
+  rcases encChar_cases x with ⟨e, h⟩ | ⟨e, h⟩
+  · exact ⟨'\\', x :: r, by rw [e]; rfl, by decide, by decide, by decide, by decide, by decide, by decide⟩
+  · refine ⟨x, r, by rw [e]; rfl, ?_⟩
+    simp only [escList, List.contains_cons, List.contains_nil, Bool.or_false, Bool.or_eq_false_iff,
+      beq_eq_false_iff_ne, ne_eq] at h
+    simp_all
+
+theorem quantFree_enc (t tail : Str) (ht : t.all litChar = true) (hq : quantFree tail = true) :
+    quantFree (enc t ++ tail) = true := by
+  cases t with
+  | nil => simpa [enc] using hq
+  | cons x xs =>
+    simp only [List.all_cons, Bool.and_eq_true] at ht
+    rw [enc_cons, List.append_assoc]
+    obtain ⟨c, r', e, h⟩ := encChar_head x (enc xs ++ tail) ht.1
+    rw [e]
+    simp [quantFree, h]
+
+/-- the regex `parseSeq` builds for the characters `t` followed by `rt` -/
+def combine (t : Str) (rt : Re) : Re := t.foldr (fun x b => seqc (.chr x) b) rt
+
+theorem parseSeq_enc (t tail : Str) (n0 : Nat) (rt : Re) (rest : Str)
+    (ht : t.all litChar = true) (hq : quantFree tail = true)
+    (hT : ∀ f, parseSeq (f + n0 + 1) tail = some (rt, rest)) (f : Nat) :
+    parseSeq (f + n0 + 1 + t.length) (enc t ++ tail) = some (combine t rt, rest) := by
+  induction t with
+  | nil => simpa [enc, combine] using hT f
+  | cons x xs ih =>
+    simp only [List.all_cons, Bool.and_eq_true] at ht
+    have ih' := ih ht.2
+    have hfuel : f + n0 + 1 + (x :: xs).length = (f + n0 + xs.length + 1) + 1 := by
+      simp only [List.length_cons]; omega
+    have hfuel2 : f + n0 + xs.length + 1 = f + n0 + 1 + xs.length := by omega
+    rw [hfuel, enc_cons, List.append_assoc]
+    have hs : match encChar x ++ (enc xs ++ tail) with | [] => False | c :: _ => c ≠ '|' ∧ c ≠ ')' := by
+      obtain ⟨c, r', e, h⟩ := encChar_head x (enc xs ++ tail) ht.1
+      rw [e]; exact ⟨h.1, h.2.1⟩
+    rw [parseSeq_step _ _ _ _ hs (parseAtom_encChar _ x _ ht.1) (quantFree_enc xs tail ht.2 hq),
+      hfuel2, ih']
+    rfl
+
+theorem parseAlt_of_parseSeq (f : Nat) (s : Str) (a : Re) (h : parseSeq f s = some (a, [])) :
+    parseAlt (f + 1) s = some (a, []) := by
+  simp [parseAlt, h]
+
+theorem combine_eps (t : Str) : combine t .eps = litsRe t := by
+  induction t with
+  | nil => rfl
+  | cons x xs ih =>
+    have : combine (x :: xs) .eps = seqc (.chr x) (combine xs .eps) := rfl
+    rw [this, ih]
+    cases xs with
+    | nil => rfl
+    | cons y ys => cases ys <;> rfl
+
+/-- twin of `Re.litsThen` (Props/C07.lean) -/
+def litsThenRe : Str → Re → Re
+  | [], r => r
+  | c :: cs, r => .seq (.chr c) (litsThenRe cs r)
+
+theorem combine_eol (t : Str) : combine t .eol = litsThenRe t .eol := by
+  induction t with
+  | nil => rfl
+  | cons x xs ih =>
+    have : combine (x :: xs) .eol = seqc (.chr x) (combine xs .eol) := rfl
+    rw [this, ih]
+    cases xs <;> rfl
+
+theorem parseRe_enc (t : Str) (ht : t.all litChar = true) : parseRe (enc t) = some (litsRe t) := by
+  have hlen := length_le_enc t
+  obtain ⟨f, hf⟩ : ∃ f, 3 * (enc t).length + 3 = (f + 0 + 1 + t.length) + 1 :=
+    ⟨3 * (enc t).length + 1 - t.length, by omega⟩
+  have h := parseSeq_enc t [] 0 .eps [] ht rfl (fun f => rfl) f
+  rw [List.append_nil, combine_eps] at h
+  simp [parseRe, hf, parseAlt_of_parseSeq _ _ _ h]
+
+theorem parseRe_enc_anchored (t : Str) (ht : t.all litChar = true) :
+    parseRe ('^' :: (enc t ++ ['$'])) = some (.seq .bol (litsThenRe t .eol)) := by
+  have hlen := length_le_enc t
+  obtain ⟨f, hf⟩ : ∃ f, 3 * ('^' :: (enc t ++ ['$'])).length + 3 = ((f + 1 + t.length + 1) + 1) + 1 :=
+    ⟨3 * ('^' :: (enc t ++ ['$'])).length - t.length - 1, by simp; omega⟩
+  have h := parseSeq_enc t ['$'] 1 .eol [] ht rfl (fun f => rfl) f
+  rw [combine_eol] at h
+  have hfu : f + 1 + 1 + t.length = (f + 1 + t.length) + 1 := by omega
+  rw [hfu] at h
+  have hq := quantFree_enc t ['$'] ht rfl
+  have ha : parseAtom ((f + 1 + t.length) + 1) ('^' :: (enc t ++ ['$'])) = some (.bol, enc t ++ ['$']) := rfl
+  have hs : match ('^' :: (enc t ++ ['$']) : Str) with | [] => False | c :: _ => c ≠ '|' ∧ c ≠ ')' :=
+    ⟨by decide, by decide⟩
+  have h2 : parseSeq ((f + 1 + t.length + 1) + 1) ('^' :: (enc t ++ ['$'])) =
+      some (.seq .bol (litsThenRe t .eol), []) := by
+    rw [parseSeq_step _ _ _ _ hs ha hq, h]
+    cases t <;> rfl
+  simp only [parseRe, hf, parseAlt_of_parseSeq _ _ _ h2]
+
+/-! ### the whole chain on escaped literal text -/
+
+theorem partPatterns_upper : Gen.partPatterns.all (fun e => e.1.any isUpper) = true := by decide
+
+theorem replaceParts_enc (t : Str) (ht : t.all litChar = true) :
+    replacePatternParts Gen.partPatterns Gen.partFields (enc t) = enc t := by
+  have h1 := noBare_enc '[' (Or.inl rfl) t [] ht rfl
+  have h2 := noBare_enc ']' (Or.inr rfl) t [] ht rfl
+  have h3 := enc_noUpper t [] ht rfl
+  rw [List.append_nil] at h1 h2 h3
+  exact replacePatternParts_id _ _ _ h1 h2 partPatterns_upper h3
+
+theorem replaceParts_enc_anchored (t : Str) (ht : t.all litChar = true) :
+    replacePatternParts Gen.partPatterns Gen.partFields ('^' :: (enc t ++ ['$'])) =
+      '^' :: (enc t ++ ['$']) := by
+  have h1 := noBare_enc '[' (Or.inl rfl) t ['$'] ht rfl
+  have h2 := noBare_enc ']' (Or.inr rfl) t ['$'] ht rfl
+  have h3 := enc_noUpper t ['$'] ht rfl
+  have e1 : ('^' != '[') = true := by decide
+  have e2 : ('^' != ']') = true := by decide
+  have e3 : ('^' == '\\') = false := by decide
+  have e4 : isUpper '^' = false := by decide
+  apply replacePatternParts_id _ _ _ _ _ partPatterns_upper
+  · simp only [List.any_cons, e4, h3, Bool.or_self]
+  · simp only [noBare, e1, e3, h1, Bool.true_or, Bool.and_self]
+  · simp only [noBare, e2, e3, h2, Bool.true_or, Bool.and_self]
+
 end BV
